@@ -438,3 +438,193 @@ func init() {
 		},
 	})
 }
+
+// ---------------------------------------------------------------------------------------------------------------------
+// interference: handlers that use a client-supplied string as key of a session store
+
+var c05HostileHandlers = []string{"token-code", "request-jwt-get", "request-jwt-post", "direct-post-nonce", "direct-post-state", "user-landing", "dpop-jti"}
+
+var c05HostileSpellings = []string{"up", "up-short", "up-extra", "absolute", "x-dotdot", "dot-up", "double-slash", "percent", "percent-dot", "backslash", "verbatim"}
+
+const c05AuxState = "c05-aux-state"
+
+// c05Spell names the entry `target` (a full back-end key) from inside a store whose keys are `depth` segments deep.
+func c05Spell(spelling string, depth int, target string) string {
+	up := func(n int, seg string) string {
+		if n < 0 {
+			n = 0
+		}
+		return strings.Repeat(seg, n)
+	}
+	switch spelling {
+	case "up":
+		return up(depth, "../") + target
+	case "up-short":
+		return up(depth-1, "../") + target
+	case "up-extra":
+		return up(depth+1, "../") + target
+	case "absolute":
+		return "/" + target
+	case "x-dotdot":
+		return "x/../" + up(depth, "../") + target
+	case "dot-up":
+		return "./" + up(depth, "../") + target
+	case "double-slash":
+		return up(depth, "..//") + target
+	case "percent":
+		return up(depth, "..%2F") + strings.ReplaceAll(target, "/", "%2F")
+	case "percent-dot":
+		return up(depth, "%2e%2e/") + target
+	case "backslash":
+		return up(depth, `..\`) + strings.ReplaceAll(target, "/", `\`)
+	}
+	return target // verbatim
+}
+
+// c05HostileCall sends one request with the client-supplied key to the handler. Whatever it answers is irrelevant.
+func c05HostileCall(x *h.Ctx, fx *c05Fixture, handler string, key string) {
+	nmsgs := len(fx.rep.msgs)
+	defer func() {
+		// a collaborator the hostile request happened to reach is none of the case's business
+		// ... and neither is a panic of the handler (the HTTP layer recovers it into a 500; crashes are C19's business)
+		if r := recover(); r != nil {
+			if _, ok := r.(c05MockFailure); !ok {
+				x.Class("interference-request-made-the-handler-panic")
+			}
+		}
+		fx.rep.mu.Lock()
+		fx.rep.msgs = fx.rep.msgs[:nmsgs]
+		fx.rep.mu.Unlock()
+	}()
+	switch handler {
+	case "token-code":
+		cid, ver := "https://client.example.com/oauth2/client", "verifier"
+		_, _ = fx.w.HandleTokenRequest(c05HTTPCtx(), HandleTokenRequestRequestObject{SubjectID: c05VerifierSubject,
+			Body: &HandleTokenRequestFormdataRequestBody{GrantType: oauth.AuthorizationCodeGrantType, Code: &key, ClientId: &cid, CodeVerifier: &ver}})
+	case "request-jwt-get":
+		_, _ = fx.w.RequestJWTByGet(context.Background(), RequestJWTByGetRequestObject{SubjectID: c05HolderSubject, Id: key})
+	case "request-jwt-post":
+		_, _ = fx.w.RequestJWTByPost(context.Background(), RequestJWTByPostRequestObject{SubjectID: c05HolderSubject, Id: key})
+	case "direct-post-nonce", "direct-post-state":
+		// direct_post of a wallet: the state selects the session, the presentation's challenge is looked up as nonce
+		state, challenge := c05AuxState, key
+		if handler == "direct-post-state" {
+			state, challenge = key, "some-challenge"
+		}
+		ch, _ := json.Marshal(challenge)
+		vp := `{"type":"VerifiablePresentation", "verifiableCredential":{"type":"VerifiableCredential", "credentialSubject":{"id":"did:web:example.com:iam:holder"}},"proof":{"challenge":` + string(ch) + `,"domain":"` + c05VerifierURL + `","proofPurpose":"assertionMethod","type":"JsonWebSignature2020","verificationMethod":"did:web:example.com:iam:holder#0"}}`
+		sub := `{"id":"1", "definition_id":"1", "descriptor_map":[{"id":"1","format":"ldp_vc","path":"$.verifiableCredential"}]}`
+		_, _ = fx.w.HandleAuthorizeResponse(context.Background(), HandleAuthorizeResponseRequestObject{
+			Body: &HandleAuthorizeResponseFormdataRequestBody{VpToken: &vp, PresentationSubmission: &sub, State: &state}, SubjectID: c05VerifierSubject})
+	case "user-landing":
+		echoCtx := mock.NewMockContext(fx.ctrl)
+		requestCtx, _ := user.CreateTestSession(context.Background(), c05HolderSubject)
+		httpRequest := (&http.Request{Host: "example.com"}).WithContext(requestCtx)
+		echoCtx.EXPECT().QueryParam("token").Return(key).AnyTimes()
+		echoCtx.EXPECT().Request().Return(httpRequest).AnyTimes()
+		echoCtx.EXPECT().Redirect(gomock.Any(), gomock.Any()).Return(nil).AnyTimes()
+		echoCtx.EXPECT().NoContent(gomock.Any()).Return(nil).AnyTimes()
+		_ = fx.w.handleUserLanding(echoCtx)
+	case "dpop-jti":
+		// the jti is no lookup key chosen per request, but it is a client-chosen string that becomes a store key
+		const accessToken, method, target = "hostile-token", "POST", "https://server.example.com/hostile"
+		httpRequest, _ := http.NewRequest(method, target, nil)
+		p := dpop.New(*httpRequest)
+		if p.Token.Set(jwt.JwtIDKey, key) != nil {
+			return
+		}
+		p.GenerateProof(accessToken)
+		keyPair, err := ecdsa.GenerateKey(elliptic.P256(), rand.Reader)
+		if err != nil {
+			return
+		}
+		if _, err = p.Sign("kid", keyPair, jwa.ES256); err != nil {
+			return
+		}
+		tp, _ := p.Headers.JWK().Thumbprint(crypto.SHA256)
+		_, _ = fx.w.ValidateDPoPProof(context.Background(), ValidateDPoPProofRequestObject{Body: &ValidateDPoPProofJSONRequestBody{
+			DpopProof: p.String(), Method: method, Thumbprint: base64.RawURLEncoding.EncodeToString(tp), Token: accessToken, Url: target}})
+	default:
+		x.Fatalf("unknown hostile handler %q", handler)
+	}
+}
+
+// c05Interfere performs the hostile step. The names of the stores are not assumed: the keys of the entries to attack are
+// the back-end keys the earlier requests of the history really used, and the depth of the attacked handler's own store
+// is measured by sending it a marker key first and looking at the back-end key that results.
+func c05Interfere(x *h.Ctx, fx *c05Fixture, hs c05HostileStep) string {
+	okSp := false
+	for _, sp := range c05HostileSpellings {
+		okSp = okSp || sp == hs.Spelling
+	}
+	if !okSp {
+		x.Fatalf("unknown spelling %q", hs.Spelling)
+	}
+	x.Class("interference:" + hs.Handler)
+	x.Class("interference-spelling:" + hs.Spelling)
+	targets := append([]string{}, fx.st.touched...)
+	if hs.Handler == "direct-post-nonce" {
+		// a session of a wallet flow the attacker started himself, so that the request gets as far as the nonce lookup
+		subject := c05VerifierSubject
+		mapping := pe.WalletOwnerMapping{pe.WalletOwnerOrganization: pe.PresentationDefinition{Id: "1",
+			InputDescriptors: []*pe.InputDescriptor{{Id: "1", Constraints: &pe.Constraints{Fields: []pe.Field{{Path: []string{"$.type"}}}}}}}}
+		x.NoErr(fx.w.oauthClientStateStore().Put(c05AuxState, OAuthSession{SessionID: "aux", OwnSubject: &subject, ClientID: c05HolderURL,
+			RedirectURI: "https://example.com/iam/holder/cb", ClientState: "aux", OpenID4VPVerifier: newPEXConsumer(mapping)}), "aux session")
+	}
+	// measure the handler's store(s): which back-end keys does a marker key turn into?
+	const marker = "c05-marker-key"
+	fx.st.mu.Lock()
+	fx.st.touched = nil
+	fx.st.mu.Unlock()
+	fx.st.arm(true, -1)
+	c05HostileCall(x, fx, hs.Handler, marker)
+	fx.st.arm(false, -1)
+	depths := map[int]bool{}
+	for _, k := range fx.st.touched {
+		if strings.HasSuffix(k, marker) {
+			depths[strings.Count(strings.TrimSuffix(k, marker), "/")] = true
+		}
+	}
+	if len(depths) == 0 {
+		x.Class("interference-handler-did-not-use-the-key")
+		return fmt.Sprintf("hostile step: %s did not use the client-supplied key in the store\n", hs.Handler)
+	}
+	before := fx.st.keys()
+	calls := 0
+	var sent []string
+	for _, tgt := range targets {
+		for d := 0; d <= 6; d++ {
+			if !depths[d] {
+				continue
+			}
+			key := c05Spell(hs.Spelling, d, tgt)
+			c05HostileCall(x, fx, hs.Handler, key)
+			calls++
+			if len(sent) < 4 {
+				sent = append(sent, key)
+			}
+		}
+	}
+	after := fx.st.keys()
+	removed, added := 0, 0
+	for k := range before {
+		if !after[k] {
+			removed++
+		}
+	}
+	for k := range after {
+		if !before[k] {
+			added++
+		}
+	}
+	x.Classf("interference-entries-attacked=%d", len(targets))
+	switch {
+	case removed > 0:
+		x.Class("interference-removed-an-entry")
+	case added > 0:
+		x.Class("interference-added-an-entry")
+	default:
+		x.Class("interference-left-the-store-unchanged")
+	}
+	return fmt.Sprintf("hostile step: %d requests to %s with keys like %q (spelling %s); live entries removed %d, added %d\n", calls, hs.Handler, sent, hs.Spelling, removed, added)
+}
